@@ -97,7 +97,8 @@ type Recorder struct {
 	Yield    func() // scheduler yield point (nil = none)
 	Injected error
 	Name     string
-	MaxActs  int // action-call budget (0 = 3000): a parser that keeps reducing without reading input is cut off
+	raw      [][]any // the attribute values handed to each action, as received
+	MaxActs  int     // action-call budget (0 = 3000): a parser that keeps reducing without reading input is cut off
 }
 
 // BudgetExceeded is the panic value used to stop a run that exceeds its scan or action budget (non-termination).
@@ -133,6 +134,7 @@ func A(c any, alt int, args ...any) (any, error) {
 		conv[i] = rec.conv(a)
 	}
 	rec.Log = append(rec.Log, Event{Kind: "act", N: alt, Args: conv, Ctx: ctx})
+	rec.raw = append(rec.raw, append([]any(nil), args...))
 	rec.acts++
 	if max := rec.MaxActs; (max == 0 && rec.acts > 3000) || (max > 0 && rec.acts > max) {
 		panic(BudgetExceeded{})
@@ -181,8 +183,9 @@ type Result struct {
 	ErrOther string  // non-nil error that is not *errors.Error
 	Panic    string
 	Scans    int
-	Budget   bool // the scan/action budget was exceeded (treated as non-termination)
-	ErrObj   any  // the raw error value returned by Parse (for Impl.ErrorString)
+	Budget   bool   // the scan/action budget was exceeded (treated as non-termination)
+	ErrObj   any    // the raw error value returned by Parse (for Impl.ErrorString)
+	Unstable string // an attribute handed to an action changed afterwards (see Recorder.Unstable)
 }
 
 // Lexer is a generated lexer.
@@ -241,4 +244,67 @@ func Get(id string) *Impl {
 	mu.Lock()
 	defer mu.Unlock()
 	return reg[id]
+}
+
+// Render gives attributes a canonical string form (shared with the reference machines): t<i> for the i-th token,
+// N<alt>(...) for an action result, E(t<i>;discarded...) for an error attribute, nil.
+func Render(v any) string { return renderD(v, 0) }
+
+func renderD(v any, depth int) string {
+	if depth > 40 {
+		return "..."
+	}
+	switch x := v.(type) {
+	case nil:
+		return "nil"
+	case TokRef:
+		if x.Idx >= 0 {
+			return fmt.Sprintf("t%d", x.Idx)
+		}
+		return x.String()
+	case *Node:
+		if x == nil {
+			return "nil"
+		}
+		s := ""
+		for i, k := range x.Kids {
+			if i > 0 {
+				s += ","
+			}
+			s += renderD(k, depth+1)
+		}
+		return fmt.Sprintf("N%d(%s)", x.Alt, s)
+	case *ErrRef:
+		s := ""
+		for i, k := range x.ErrorSymbols {
+			if i > 0 {
+				s += ","
+			}
+			s += renderD(k, depth+1)
+		}
+		return fmt.Sprintf("E(%s;%s)", renderD(x.ErrorToken, depth+1), s)
+	}
+	return fmt.Sprintf("?%T(%v)", v, v)
+}
+
+// Unstable re-converts every attribute that was handed to an action and compares it with what the action saw at the
+// time: an attribute object that changes AFTER it was delivered (a buffer reused by a later step) is reported.
+// Node kids were converted at delivery, so only live objects (tokens, error attributes) can differ.
+func (r *Recorder) Unstable() string {
+	n := 0
+	for _, e := range r.Log {
+		if e.Kind != "act" {
+			continue
+		}
+		if n >= len(r.raw) {
+			break
+		}
+		for k, a := range r.raw[n] {
+			if now, then := Render(r.conv(a)), Render(e.Args[k]); now != then {
+				return fmt.Sprintf("argument %d of action call #%d (alternative %d) was %s when the action ran and is %s after Parse returned", k, n+1, e.N, then, now)
+			}
+		}
+		n++
+	}
+	return ""
 }
